@@ -156,6 +156,18 @@ func script(seed int64, idx int) {
 			sim.Mutate("advance", func(s *evmsim.Sim) { s.AdvanceHead(target) })
 			tr(fmt.Sprintf("head jumps to %d (block %d + %d)", target, blk.Number, target-blk.Number))
 			vlib.CDistinct("head_jumps", fmt.Sprintf("%s/jump=%d/cl=%d", md, jump, cl))
+			if kind == "failed-tx" { // deep by now: a re-observation request for the failed transaction must yield nothing
+				h.Quiesce(2, 20*time.Second)
+				sim.Mutate("advance", func(s *evmsim.Sim) { s.AdvanceHead(blk.Number + 300) })
+				h.Quiesce(2, 20*time.Second)
+				tr(fmt.Sprintf("head +300; reobserve the failed tx=%x", tx.Hash[:4]))
+				if !h.Reobserve(tx.Hash, 25*time.Second) {
+					vlib.CFinding("reobserve:request-not-handled-within-watchdog", map[string]interface{}{"script": desc, "trace": trace})
+					return
+				}
+				vlib.CCount("reobservation_requests", 1)
+				vlib.CCount("failed_transactions_reobserved", 1)
+			}
 		case x == 11 && !allowFaults: // the node fails three head polls in a row while a message is pending: the watcher restarts; the message must still be forwarded
 			cl := uint8(15)
 			var tx *evmsim.Tx
